@@ -332,7 +332,8 @@ class Mesh:
             self.refine_space(elem)
 
     def uniform_refine_space(self):
-        leaves = list(self.leaf_elements)
+        leaves = sorted(list(self.leaf_elements),
+                        key=lambda elem: elem.level_space)
         for elem in leaves:
             self.refine_space(elem)
 
